@@ -46,6 +46,8 @@ type Key = [u8; 32];
 
 /// T2 dumps above this size are not sent to the Lean driver (counted as `t2.skipped.*`).
 const T2_MAX_LINE: usize = 200 * 1024;
+/// limit of the compact `t2 nostale` line of a case with `t2_big_nostale`
+const T2_BIG_NOSTALE_LINE: usize = 8 * 1024 * 1024;
 
 /// `PDBVERIF_T2_MAX_LINE=<bytes>` raises / lowers the limit (e.g. to send the dumps of the big
 /// cases, which are the only ones taken between two reindex batches of one table, to the driver).
@@ -360,6 +362,10 @@ struct Case<'a> {
 	seed: u64,
 	/// what happened since the oldest queued index table was queued (`nostale.*` counters)
 	events: BTreeSet<String>,
+	/// dumps above `T2_MAX_LINE` still reach the Lean checker in the compact form `t2 nostale`
+	/// (index tables + value tables, no `t2 slots` / `t2 index` lines, no key list): set by the
+	/// directed case that dumps between two reindex batches of one table
+	t2_big_nostale: bool,
 }
 
 /// a crash image and what was known when it was taken
@@ -883,23 +889,32 @@ impl<'a> Case<'a> {
 	/// Emit `t2 slots` (one per value table) and `t2 index` (whole column) op lines; the
 	/// compiled Lean driver must answer `ok` to each (standard correspondence step).
 	fn t2_emit(&mut self, d: &parity_db::verif::VerifDump, content: &BTreeMap<Key, String>) {
+		let small = t2_max_line();
+		let table_limit = if self.t2_big_nostale { std::cmp::max(small, T2_BIG_NOSTALE_LINE) } else { small };
 		let mut tables: Vec<String> = vec![];
-		let mut complete = true;
+		let mut complete = true; // every value table rendered
+		let mut all_small = true; // ... within the standard limit (t2 slots / t2 index lines possible)
 		for tb in &d.tables {
-			match self.t2_table(tb, t2_max_line()) {
+			match self.t2_table(tb, table_limit) {
 				Some(s) => {
-					self.ctr.inc("t2.slots.lines");
-					self.ctr.add("t2.slots.slots", tb.filled - 1);
-					self.ctr.add("t2.bytes", s.len() as u64);
-					if tb.multipart {
-						self.ctr.inc("t2.slots.multipart_tables");
+					if s.len() <= small {
+						self.ctr.inc("t2.slots.lines");
+						self.ctr.add("t2.slots.slots", tb.filled - 1);
+						self.ctr.add("t2.bytes", s.len() as u64);
+						if tb.multipart {
+							self.ctr.inc("t2.slots.multipart_tables");
+						}
+						self.t.op(&format!("t2 slots {}", s), "ok");
+					} else {
+						self.ctr.inc("t2.skipped.slots_too_big");
+						all_small = false;
 					}
-					self.t.op(&format!("t2 slots {}", s), "ok");
 					tables.push(s);
 				},
 				None => {
 					self.ctr.inc("t2.skipped.slots_too_big");
 					complete = false;
+					all_small = false;
 				},
 			}
 		}
@@ -907,28 +922,47 @@ impl<'a> Case<'a> {
 			self.ctr.inc("t2.skipped.index_incomplete");
 			return
 		}
-		let mut line = format!("t2 index {}", d.progress);
+		// payload shared by `t2 index` and `t2 nostale`: progress, index tables, value tables
+		let mut body = format!("{}", d.progress);
 		let mut n_entries = 0u64;
 		for (bits, entries) in &d.index {
-			line.push_str(&format!(" T {}", bits));
+			body.push_str(&format!(" T {}", bits));
 			for (chunk, slot, e) in entries {
-				line.push_str(&format!(" {}:{}:{}", chunk, slot, e));
+				body.push_str(&format!(" {}:{}:{}", chunk, slot, e));
 				n_entries += 1;
 			}
 		}
 		for s in &tables {
-			line.push_str(" V ");
-			line.push_str(s);
+			body.push_str(" V ");
+			body.push_str(s);
 		}
-		line.push_str(" K");
+		let mut keys = String::from(" K");
 		for k in content.keys() {
-			line.push(' ');
-			line.push_str(&hex(k));
+			keys.push(' ');
+			keys.push_str(&hex(k));
 		}
-		if line.len() > t2_max_line() {
-			self.ctr.inc("t2.skipped.index_too_big");
+		if !all_small || "t2 index ".len() + body.len() + keys.len() > small {
+			if !all_small {
+				self.ctr.inc("t2.skipped.index_incomplete");
+			} else {
+				self.ctr.inc("t2.skipped.index_too_big");
+			}
+			// compact form: NO STALE INDEX ENTRY only (needs neither the key list nor the other lines)
+			if self.t2_big_nostale && body.len() <= T2_BIG_NOSTALE_LINE {
+				let nostale = format!("t2 nostale {}", body);
+				self.ctr.inc("t2.nostale.lines");
+				self.ctr.inc("t2.nostale.big_lines");
+				if d.progress > 0 {
+					self.ctr.inc("t2.nostale.lines_progress_nonzero");
+				}
+				self.ctr.inc(&format!("t2.nostale.tables.{}", d.index.len()));
+				self.ctr.add("t2.nostale.entries", n_entries);
+				self.ctr.add("t2.nostale.big_bytes", nostale.len() as u64);
+				self.t.op(&nostale, "ok");
+			}
 			return
 		}
+		let line = format!("t2 index {}{}", body, keys);
 		self.ctr.inc("t2.index.lines");
 		self.ctr.inc(&format!("t2.index.tables.{}", d.index.len()));
 		self.ctr.add("t2.index.entries", n_entries);
@@ -938,6 +972,9 @@ impl<'a> Case<'a> {
 		// NO STALE INDEX ENTRY (fix 515aeb7) evaluated by the Lean definition on the same payload
 		let nostale = format!("t2 nostale {}", &line["t2 index ".len()..]);
 		self.ctr.inc("t2.nostale.lines");
+		if d.progress > 0 {
+			self.ctr.inc("t2.nostale.lines_progress_nonzero");
+		}
 		self.ctr.inc(&format!("t2.nostale.tables.{}", d.index.len()));
 		self.ctr.add("t2.nostale.entries", n_entries);
 		self.ctr.add("t2.bytes", nostale.len() as u64);
@@ -1518,6 +1555,7 @@ fn new_case<'a>(
 		last_stat: st,
 		seed,
 		events: Default::default(),
+		t2_big_nostale: false,
 	};
 	let init = format!(
 		"c09 init 16 {} {} {}",
@@ -2158,6 +2196,7 @@ fn directed_nostale(seed: u64, root: &Path, t: &mut Trace, ctr: &mut Counters, p
 	let spare_from = 65 + n_bg;
 	let desc = format!("keys={} spare={}", spare_from, keys.len() - spare_from);
 	let mut c = new_case(seed, "directed-nostale-between-batches", &desc, true, root, t, ctr, prop, flags, keys.clone());
+	c.t2_big_nostale = true;
 	let tag = format!("c09-{}", seed);
 	let smalls = [c.vals.token(4, 1), c.vals.token(3, 2), c.vals.token(0, 3)];
 	let small2 = c.vals.token(4, 7);
